@@ -50,6 +50,8 @@ SPEC = {
         "setter on message objects with a history (same PGN before, other PGN before, stale content) and demands the fresh "
         "object's bytes; parsers with caller-sized text buffers get an independent size per buffer with a guard behind each "
         "(op `parse … cap=…`), each string checked against its own size",
+        "text of the variable strings that may carry UCS-2 (AddVarStr with vss_SupportUnicode) is also exercised with UTF-8 text "
+        "of 2-byte (U+0080..U+07FF) and 3-byte sequences; the conversion itself is property C16",
         "scaled fields are exchanged as integer codes: the harness calls the setter with code*resolution and converts the "
         "parsed double back with the parser-side resolution literal; the double<->code conversion itself is property C06. "
         "For 8-byte fields the harness searches the neighbouring doubles with the library's own Add8ByteDouble for one that "
